@@ -95,6 +95,10 @@ func zzMkClient(net *zzFaultNet, retry int, mirrorTLS config.TLSConf, withMirror
 // the mirror, the upstream's credentials never reach the mirror, and a host
 // configured for TLS is never addressed over http.
 func ZZC11_next() {
+	virtual := zzBool("virtual_time")
+	if virtual {
+		zzClockVirtual()
+	}
 	R := zzInt("retry_limit", 1, 2+zzTier())
 	net := &zzFaultNet{budget: zzInt("fault_budget", 0, 3+zzTier()), rotate: zzBool("rotating_realm")}
 	withMirror := zzBool("with_mirror")
@@ -132,8 +136,13 @@ func ZZC11_next() {
 			zzReach("retry_limit_reached")
 		}
 	}
-	// (iii) back-off: after a back-off class failure the same host is not asked again before the delay has passed
+	// (iii) back-off: after a back-off class failure the same host is not asked again before the delay has passed.
+	// Judged under virtual time only: the delay is counted from the instant the previous attempt was due, so
+	// with an arbitrary clock a late previous attempt legitimately shortens the observable gap.
 	for i, cl := range net.calls {
+		if !virtual {
+			break
+		}
 		for j := i - 1; j >= 0; j-- {
 			if net.calls[j].host != cl.host {
 				continue
